@@ -271,6 +271,8 @@ def binop(world, ex, opname, a, b):
         a = resolve_payload(world, ex, a)
     if isinstance(b, PayloadView):
         b = resolve_payload(world, ex, b)
+    if opname == "%" and (isinstance(a, (str, Opaque, BitStr)) or is_sym_str(a)):
+        return str_format(world, ex, a, b)      # str.__mod__ of the left operand comes first
     # nodes: infix operators of FNode
     if is_node(a) or is_node(b):
         dun = {"+": "add", "-": "sub", "*": "mul", "/": "truediv", "&": "and", "|": "or", "^": "xor",
@@ -842,6 +844,8 @@ def iterate(world, ex, v):
         n = concretize_int(world, ex, z3.Length(v), 0, 16, "str-len-bound")
         return [z3.SubString(v, i, 1) for i in range(n)]
     if is_zset(v):
+        if ex.ghost.get("enumerate_sets"):
+            return zset_elements(world, ex, v)      # per-element processing: bounded by ex.max_arity
         return [ZSetSplat(v)]
     if isinstance(v, ZSetTuple):
         return zset_elements(world, ex, v.zset)
@@ -874,6 +878,12 @@ def zset_elements(world, ex, z):
         tag = ex.fresh("sz", B)
         ex.assume(tag == c)
         if ex.decide(tag):
+            if z3.is_app(z) and z.decl().eq(S.fv) and dom == Node:
+                for x in items:      # members of a free-symbol set are symbols (definition of fv)
+                    world.touch(ex, x)
+                    ex.assume(S.op(x) == S.SYMBOL)
+                    world.learn(ex, x, op=S.SYMBOL, k=0)
+            ex.ghost.setdefault("set_elements", []).extend(items)
             return items
     ex.notes.append("set-size-bound")
     raise PathAbort("set-size-bound")
